@@ -80,7 +80,10 @@ def src_interp(n, idx, op, elem="int", built="literal"):
         decl = "    let mut a: array<%s> = [%s]\n" % (ty, ", ".join(val(i) for i in range(n)))
     else:
         decl = "    let mut a: array<%s> = []\n" % ty + "".join("    set a (array_push a %s)\n" % val(i) for i in range(n))
-    if op == "get":
+    if op == "pop":
+        acc = {"int": "    let x: int = (array_pop a)\n    (println x)\n    return 1\n", "string": "    let x: string = (array_pop a)\n    (println x)\n    return 1\n",
+               "struct": "    let x: Pt = (array_pop a)\n    (println x.v)\n    return 1\n"}[elem]
+    elif op == "get":
         acc = {"int": "    let x: int = (at a i)\n    (println x)\n    return x\n",
                "string": "    let x: string = (at a i)\n    (println x)\n    return (str_length x)\n",
                "struct": "    let x: Pt = (at a i)\n    (println x.v)\n    return x.v\n"}[elem]
@@ -218,6 +221,13 @@ def run(ctx):
                 for mode in ("native", "vmsrc"):
                     if op != "pop":
                         progs.append((mode, 2, 1, op + "/" + elem, src_kind(elem, op, 1)))
+    # interpreter: pop on an empty array (literal-built and push-built), every element kind
+    for elem in ("int", "string", "struct"):
+        for built in ("literal", "push"):
+            if elem == "struct" and built == "literal":
+                continue
+            progs.append(("interp", 0, 0, "pop", src_interp(0, 0, "pop", elem, built)))
+    progs.append(("interp", 2, 0, "pop", src_interp(2, 0, "pop", "int", "push")))
     with tempfile.TemporaryDirectory(prefix="nvc08", dir="/var/tmp") as td:
         with ThreadPoolExecutor(16) as ex:
             res = list(ex.map(lambda kp: run_vm_src((tdir, td, kp[0], kp[1][4])) if kp[1][0] == "vmsrc" else run_native((tdir, td, kp[0], kp[1][4], kp[1][0])), enumerate(progs)))
